@@ -27,7 +27,11 @@ def cases(tier, seed):
             ("diamond", dag("diamond", [1, 2, 3, 1], [1, 2, 0, 3])),
             # structural nodes (no compute, no data: planned est == eft)
             ("fork-zero", dag("fork", [1, 0, 2], [0, 0])),
-            ("join-zero", dag("join", [2, 1, 0], [0, 0]))]
+            ("join-zero", dag("join", [2, 1, 0], [0, 0])),
+            # two parallel branches: one falls behind the plan (delay,
+            # contention) while a later-sorted task of the other is ready
+            ("chains22", dag("chains22", [1, 1, 1, 1], [0, 0])),
+            ("chains22-uneven", dag("chains22", [2, 1, 1, 2], [1, 0]))]
     wb = dag("single", [2])
     wb2 = dag("chain2", [1, 1], [1])
     clusters = [CLUSTERS[2][1], CLUSTERS[2][2], CLUSTERS[3][1]]
